@@ -203,25 +203,9 @@ func checkExitWaitBounded(c *report.Ctx) {
 			for _, b := range f.Blocks {
 				if s, idx := selectCase(facts, b); s == sel && idx == tIdx {
 					found = true
-					// no path from b back to the select
-					seen := map[*ssa.BasicBlock]bool{}
-					var walk func(x *ssa.BasicBlock) bool
-					walk = func(x *ssa.BasicBlock) bool {
-						if x == sel.Block() {
-							return true
-						}
-						if seen[x] {
-							return false
-						}
-						seen[x] = true
-						for _, s := range x.Succs {
-							if walk(s) {
-								return true
-							}
-						}
-						return false
-					}
-					if walk(b) {
+					// no feasible path from b back to the select (a flag set in the case and tested by the loop
+					// condition ends the loop just as a return does)
+					if feasiblyReaches(b, sel.Block()) {
 						ok = false
 					}
 				}
@@ -453,4 +437,110 @@ func checkNoDeclaredLength(c *report.Ctx) {
 		}
 	}
 	c.Check("R-WHO", "L/rapi/rendering/no-declared-content-length", "no renderer sets Content-Length by hand (the body actually written decides it, also when an oversized event was cut)", len(bad) == 0 && n >= 3, pos, n, "header writes in the renderers: %d; Content-Length set in: %v", n, bad)
+}
+
+// feasiblyReaches: is there a path from the start of block from to block target, when boolean joins that take a
+// constant on the edge walked are remembered and the branches on them are decided accordingly? (A loop left
+// through a flag - `done = true` in a case, `for ... && !done` - is left for good.)
+func feasiblyReaches(from, target *ssa.BasicBlock) bool {
+	type state struct {
+		b     *ssa.BasicBlock
+		known string
+	}
+	seen := map[state]bool{}
+	var walk func(b, pred *ssa.BasicBlock, known map[*ssa.Phi]bool, depth int) bool
+	key := func(known map[*ssa.Phi]bool) string {
+		var ks []string
+		for p, v := range known {
+			ks = append(ks, sprintf("%s=%v", p.Name(), v))
+		}
+		sort.Strings(ks)
+		return strings.Join(ks, ",")
+	}
+	resolve := func(v ssa.Value, known map[*ssa.Phi]bool) (bool, bool) {
+		neg := false
+		for i := 0; i < 8; i++ {
+			if u, ok := v.(*ssa.UnOp); ok && u.Op == token.NOT {
+				neg = !neg
+				v = u.X
+				continue
+			}
+			break
+		}
+		if b, ok := an.ConstBool(v); ok {
+			return b != neg, true
+		}
+		if p, ok := v.(*ssa.Phi); ok {
+			if k, has := known[p]; has {
+				return k != neg, true
+			}
+		}
+		return false, false
+	}
+	walk = func(b, pred *ssa.BasicBlock, known map[*ssa.Phi]bool, depth int) bool {
+		if depth > 200 {
+			return true
+		}
+		nk := map[*ssa.Phi]bool{}
+		for p, v := range known {
+			nk[p] = v
+		}
+		if pred != nil {
+			idx := -1
+			for i, p := range b.Preds {
+				if p == pred {
+					idx = i
+				}
+			}
+			upd := map[*ssa.Phi]*bool{}
+			for _, in := range b.Instrs {
+				p, ok := in.(*ssa.Phi)
+				if !ok {
+					break
+				}
+				if idx < 0 || idx >= len(p.Edges) {
+					upd[p] = nil
+					continue
+				}
+				if v, ok := resolve(p.Edges[idx], known); ok {
+					vv := v
+					upd[p] = &vv
+				} else {
+					upd[p] = nil
+				}
+			}
+			for p, v := range upd {
+				if v == nil {
+					delete(nk, p)
+				} else {
+					nk[p] = *v
+				}
+			}
+		}
+		if b == target && pred != nil {
+			return true
+		}
+		st := state{b, key(nk)}
+		if seen[st] {
+			return false
+		}
+		seen[st] = true
+		succs := b.Succs
+		if iff, ok := b.Instrs[len(b.Instrs)-1].(*ssa.If); ok && len(b.Succs) == 2 {
+			if v, ok := resolve(iff.Cond, nk); ok {
+				if v {
+					succs = b.Succs[:1]
+				} else {
+					succs = b.Succs[1:]
+				}
+			}
+		}
+		for _, s := range succs {
+			if walk(s, b, nk, depth+1) {
+				return true
+			}
+		}
+		return false
+	}
+	return walk(from, nil, map[*ssa.Phi]bool{}, 0)
 }
